@@ -90,7 +90,40 @@ impl Exe {
             self.ctxs.borrow_mut()[i].stepping -= 1;
         }
         self.flags.borrow_mut().had_step = true;
-        self.validate_step(ci, b, if run { "tsrun_run" } else { "tsrun_step" })
+        let st = self.validate_step(ci, b, if run { "tsrun_run" } else { "tsrun_step" });
+        if let (Some(i), true) = (ci, matches!(st, TsRunStepStatus::Complete | TsRunStepStatus::Suspended)) {
+            self.check_script_errors(i);
+        }
+        st
+    }
+
+    /// The programs catch what a native call throws and file it under __e0..__e5: a trampoline-internal
+    /// error there means a legitimate native call failed (checked once natives have been entered).
+    pub fn check_script_errors(&self, ci: usize) {
+        if self.cb_calls.get() == 0 || self.depth.get() > 0 {
+            return;
+        }
+        for name in ["__e0", "__e1", "__e2", "__e3", "__e4", "__e5"] {
+            if self.failed() {
+                return;
+            }
+            let n = Exe::cstring(name);
+            self.pre("tsrun_get_global", Some(ci));
+            let r = unsafe { tsrun_get_global(self.ctx_ptr(Some(ci)), n.as_ptr()) };
+            let p = self.check_vr("tsrun_get_global", Some(ci), r, Expect::MustOk);
+            if p.is_null() {
+                continue;
+            }
+            self.pre("tsrun_get_string", None);
+            let s = unsafe { tsrun_get_string(p) };
+            if let Some(t) = self.reg_str(s as *mut std::ffi::c_char, "the result of tsrun_get_string") {
+                let last = self.strs.borrow().len() - 1;
+                self.free_str_slot(last);
+                self.check_internal_error(&t, &format!("caught by the script, global {}", name));
+            }
+            self.pre("tsrun_value_free", None);
+            unsafe { tsrun_value_free(p) };
+        }
     }
 
     fn validate_step(&self, ci: Option<usize>, b: *mut TsRunStepResult, name: &str) -> TsRunStepStatus {
